@@ -101,10 +101,55 @@ fn view_hash(view: &[PVal]) -> u128 {
     ((h1 as u128) << 64) | h2 as u128
 }
 
+type BuildFn = std::sync::Arc<dyn Fn(&Graph) -> ciphercore_base::errors::Result<Node> + Send + Sync>;
+
 pub struct Family {
-    pub name: &'static str,
-    pub build: fn(&Graph) -> ciphercore_base::errors::Result<Node>,
+    pub name: String,
+    pub build: BuildFn,
     pub n_inputs: usize,
+    /// chains run on a reduced configuration set
+    pub chain: bool,
+}
+
+fn fam(name: &str, n_inputs: usize, f: impl Fn(&Graph) -> ciphercore_base::errors::Result<Node> + Send + Sync + 'static) -> Family {
+    Family { name: name.to_string(), build: std::sync::Arc::new(f), n_inputs, chain: false }
+}
+
+/// left-deep chains ((l0 o1 l1) o2 l2) o3 l3 over bit inputs with exactly `mults` multiplications, every input used
+fn chain_families(n_vars: usize, mults: usize) -> Vec<Family> {
+    let mut out = vec![];
+    let names = ["x", "y", "z"];
+    let n_seq = n_vars.pow(4);
+    for ops in 0..8usize {
+        if (ops as u32).count_ones() as usize != mults {
+            continue;
+        }
+        for seq in 0..n_seq {
+            let l: Vec<usize> = (0..4).map(|i| seq / n_vars.pow(i as u32) % n_vars).collect();
+            if (0..n_vars).any(|v| !l.contains(&v)) {
+                continue;
+            }
+            if l[0] > l[1] {
+                continue; // the first operation is commutative
+            }
+            let o: Vec<bool> = (0..3).map(|i| ops >> i & 1 == 1).collect();
+            let sym = |b: bool| if b { "*" } else { "+" };
+            let name = format!("chain:(({}{}{}){}{}){}{}", names[l[0]], sym(o[0]), names[l[1]], sym(o[1]), names[l[2]], sym(o[2]), names[l[3]]);
+            let (l2, o2) = (l.clone(), o.clone());
+            let mut f = fam(&name, n_vars, move |g| {
+                let ins: Vec<Node> = (0..n_vars).map(|_| in_bit(g)).collect::<ciphercore_base::errors::Result<Vec<_>>>()?;
+                let mut e = ins[l2[0]].clone();
+                for i in 0..3 {
+                    let rhs = ins[l2[i + 1]].clone();
+                    e = if o2[i] { e.multiply(rhs)? } else { e.add(rhs)? };
+                }
+                Ok(e)
+            });
+            f.chain = true;
+            out.push(f);
+        }
+    }
+    out
 }
 
 fn in_bit(g: &Graph) -> ciphercore_base::errors::Result<Node> {
@@ -116,19 +161,31 @@ fn in_bit2(g: &Graph) -> ciphercore_base::errors::Result<Node> {
 
 fn families(thorough: bool) -> Vec<Family> {
     let mut v: Vec<Family> = vec![
-        Family { name: "x", n_inputs: 1, build: |g| in_bit(g) },
-        Family { name: "x+y", n_inputs: 2, build: |g| in_bit(g)?.add(in_bit(g)?) },
-        Family { name: "x*y", n_inputs: 2, build: |g| in_bit(g)?.multiply(in_bit(g)?) },
-        Family { name: "x*x", n_inputs: 1, build: |g| { let x = in_bit(g)?; x.multiply(x.clone()) } },
-        Family { name: "(x*y)+z", n_inputs: 3, build: |g| in_bit(g)?.multiply(in_bit(g)?)?.add(in_bit(g)?) },
-        Family { name: "(x*y)*z", n_inputs: 3, build: |g| in_bit(g)?.multiply(in_bit(g)?)?.multiply(in_bit(g)?) },
-        Family { name: "x*y+x*z", n_inputs: 3, build: |g| { let x = in_bit(g)?; let y = in_bit(g)?; let z = in_bit(g)?; x.multiply(y)?.add(x.multiply(z)?) } },
+        fam("x", 1, |g| in_bit(g)),
+        fam("x+y", 2, |g| in_bit(g)?.add(in_bit(g)?)),
+        fam("x*y", 2, |g| in_bit(g)?.multiply(in_bit(g)?)),
+        fam("x*x", 1, |g| {
+            let x = in_bit(g)?;
+            x.multiply(x.clone())
+        }),
+        fam("(x*y)+z", 3, |g| in_bit(g)?.multiply(in_bit(g)?)?.add(in_bit(g)?)),
+        fam("(x*y)*z", 3, |g| in_bit(g)?.multiply(in_bit(g)?)?.multiply(in_bit(g)?)),
+        fam("x*y+x*z", 3, |g| {
+            let x = in_bit(g)?;
+            let y = in_bit(g)?;
+            let z = in_bit(g)?;
+            x.multiply(y)?.add(x.multiply(z)?)
+        }),
     ];
+    // three-operation chains: local operations stacked on a product (the resharing planner's postponement logic)
+    v.extend(chain_families(2, 1));
     if thorough {
-        v.push(Family { name: "dot(x2,y2)", n_inputs: 2, build: |g| in_bit2(g)?.dot(in_bit2(g)?) });
-        v.push(Family { name: "(x2*y2)[0]", n_inputs: 2, build: |g| in_bit2(g)?.multiply(in_bit2(g)?)?.get_slice(vec![SliceElement::SingleIndex(0)]) });
-        v.push(Family { name: "sum(x2*y2)", n_inputs: 2, build: |g| in_bit2(g)?.multiply(in_bit2(g)?)?.sum(vec![0]) });
-        v.push(Family { name: "x2*y2 (array out)", n_inputs: 2, build: |g| in_bit2(g)?.multiply(in_bit2(g)?) });
+        v.extend(chain_families(2, 2));
+        v.extend(chain_families(3, 1));
+        v.push(fam("dot(x2,y2)", 2, |g| in_bit2(g)?.dot(in_bit2(g)?)));
+        v.push(fam("(x2*y2)[0]", 2, |g| in_bit2(g)?.multiply(in_bit2(g)?)?.get_slice(vec![SliceElement::SingleIndex(0)])));
+        v.push(fam("sum(x2*y2)", 2, |g| in_bit2(g)?.multiply(in_bit2(g)?)?.sum(vec![0])));
+        v.push(fam("x2*y2 (array out)", 2, |g| in_bit2(g)?.multiply(in_bit2(g)?)));
     }
     v
 }
@@ -139,9 +196,9 @@ fn families_u8() -> Vec<Family> {
         g.input(scalar_type(UINT8))
     }
     vec![
-        Family { name: "u8:x", n_inputs: 1, build: |g| in8(g) },
-        Family { name: "u8:x+y", n_inputs: 2, build: |g| in8(g)?.add(in8(g)?) },
-        Family { name: "u8:x-y", n_inputs: 2, build: |g| in8(g)?.subtract(in8(g)?) },
+        fam("u8:x", 1, |g| in8(g)),
+        fam("u8:x+y", 2, |g| in8(g)?.add(in8(g)?)),
+        fam("u8:x-y", 2, |g| in8(g)?.subtract(in8(g)?)),
     ]
 }
 
@@ -478,6 +535,19 @@ pub fn run(r: &Report) -> i32 {
             (vec![P(2), Public, P(0)], vec![1, 2]),
             (vec![Shared, P(0), P(1)], vec![2]),
         ];
+        if f.chain {
+            let ovs: Vec<Vec<Owner>> = if f.n_inputs == 2 {
+                vec![vec![P(0), P(1)], vec![P(1), P(2)], vec![P(2), P(0)], vec![P(1), P(1)]]
+            } else {
+                vec![vec![P(0), P(1), P(2)], vec![P(2), P(2), P(0)]]
+            };
+            for ov in ovs {
+                for outs in [vec![0u8], vec![2], vec![]] {
+                    tasks.push((fi, false, ov.clone(), outs));
+                }
+            }
+            continue;
+        }
         if f.n_inputs == 3 && !thorough {
             let k = if f.name == "(x*y)*z" { 1 } else { 3 };
             for (ov, outs) in small.into_iter().take(k) {
@@ -539,7 +609,7 @@ pub fn run(r: &Report) -> i32 {
         })
         .collect();
     for (t, oc) in tasks.iter().zip(outcomes.iter()) {
-        let name = if t.1 { fams8[t.0].name } else { fams[t.0].name };
+        let name: &str = if t.1 { &fams8[t.0].name } else { &fams[t.0].name };
         r.count("evaluations", oc.executions);
         r.count("states", oc.executions);
         r.count("transitions", oc.executions * 3);
@@ -575,7 +645,7 @@ pub fn run(r: &Report) -> i32 {
     if std::env::var("VERIF_DRY").is_ok() {
         let mut per: BTreeMap<String, (u64, u64, u64)> = BTreeMap::new();
         for (t, oc) in tasks.iter().zip(outcomes.iter()) {
-            let name = if t.1 { fams8[t.0].name } else { fams[t.0].name };
+            let name: &str = if t.1 { &fams8[t.0].name } else { &fams[t.0].name };
             let e = per.entry(name.to_string()).or_insert((0, 0, 0));
             e.0 += oc.executions;
             e.1 = e.1.max(oc.tapes);
